@@ -1,5 +1,6 @@
 import DtsVerif.Lemmas.WlsBridge
 import DtsVerif.Model.Calib
+import DtsVerif.Props.Design
 /-!
 # C01 — single-ended calibration is the weighted least-squares fit, with its covariance
 (the theorems about `Wls.Sys` and `Calib.calibrate` hold for the double-ended model as well and are re-used by C02)
